@@ -105,7 +105,10 @@ func c31Gen(rng *core.Rng, tier string) *harness.Plan {
 		// storage mode: a dozen transactions of (up to exactly) the maximum transaction size, 4 MiB signed
 		p.Params["storage"] = 1
 		p.Params["txs"] = int64(9 + rng.IntN(5))
-		p.Params["exact_ppm"] = int64(400000 + rng.IntN(600000))
+		p.Params["exact_ppm"] = 1000000
+		if rng.Chance(0.35) {
+			p.Params["exact_ppm"] = int64(300000 + rng.IntN(700000))
+		}
 	}
 	if tier != "thorough" {
 		// quick: stop once the proposer's batch frames have been measured (the
